@@ -249,7 +249,6 @@ func (n *Node) start() error {
 		return err
 	}
 	go bc.Run()
-	// Wait until Run has marked itself running, Close before that would hang.
 	n.BC = bc
 	n.running = true
 	return nil
@@ -269,6 +268,16 @@ func (n *Node) Stop() {
 // Restart = Stop, then a new Blockchain object on the same backend (caches rebuilt from storage).
 func (n *Node) Restart() error {
 	n.Stop()
+	return n.start()
+}
+
+// RestartWith = Restart with node-local configuration changes applied in between (only settings the
+// stored version record does not pin may change: GC, verification options, ...).
+func (n *Node) RestartWith(change func(*config.Blockchain)) error {
+	n.Stop()
+	if change != nil {
+		change(&n.Cfg)
+	}
 	return n.start()
 }
 
